@@ -370,20 +370,22 @@ theorem extendMatchOpt_eq_portable (P : TwinParams) (buf : List Nat) (readPos cu
     simp only [Option.some.injEq] at h
     unfold extendMatchOptT
     simp only
-    have hm : min (limit - curLen) (buf.length - (readPos + curLen)) = limit - curLen := by omega
+    have hm : min (extLogical limit curLen) (buf.length - (readPos + curLen)) = extLogical limit curLen := by
+      omega
     rw [hm, extendMatchPtr_eq_safe P buf _ _ _ _ hb (by omega)]
     exact h
   · simp at h
 
 /-- both variants of `extend_match` against the specification -/
 theorem extendMatchPortable_spec (P : TwinParams) (hW : 0 < P.wordSize) (hd : P.tzDiv = 8)
-    (buf : List Nat) (hB : Bytes buf) (readPos curLen dist limit : Nat)
+    (buf : List Nat) (hB : Bytes buf) (readPos curLen dist limit : Nat) (hc : curLen ≤ limit)
     (hb : readPos + curLen + (limit - curLen) ≤ buf.length) :
     extendMatchPortable P buf readPos curLen dist limit =
       some (curLen + byteMatchLen (slice buf (readPos + curLen) (limit - curLen))
                                   (slice buf (readPos + curLen - dist) (limit - curLen))) := by
   unfold extendMatchPortable
-  simp only [if_pos hb]
+  have he : extLogical limit curLen = limit - curLen := by unfold extLogical; rw [if_pos hc]
+  simp only [he, if_pos hb]
   rw [extendMatchSafe_eq_byteMatchLen P hW hd _ _ (hB.slice _ _) (hB.slice _ _)]
 
 /-! ### T1: non-vacuity and witnesses -/
@@ -1186,13 +1188,14 @@ theorem ok_extendMatch (P : TwinParams) (h : P.Ok) (s1 s2 : List Nat) (h1 : Byte
   extendMatchSafe_eq_byteMatchLen P (by rw [h.1]; decide) h.2.1 s1 s2 h1 h2
 
 theorem ok_extendMatchOpt (P : TwinParams) (h : P.Ok) (buf : List Nat) (hB : Bytes buf)
-    (readPos curLen dist limit : Nat) (hb : readPos + curLen + (limit - curLen) ≤ buf.length) :
+    (readPos curLen dist limit : Nat) (hc : curLen ≤ limit)
+    (hb : readPos + curLen + (limit - curLen) ≤ buf.length) :
     (extendMatchOptT P buf readPos curLen dist limit).1 =
       curLen + byteMatchLen (slice buf (readPos + curLen) (limit - curLen))
                             (slice buf (readPos + curLen - dist) (limit - curLen)) ∧
     ∀ i ∈ (extendMatchOptT P buf readPos curLen dist limit).2, i < buf.length :=
   ⟨extendMatchOpt_eq_portable P buf _ _ _ _ _
-      (extendMatchPortable_spec P (by rw [h.1]; decide) h.2.1 buf hB _ _ _ _ hb),
+      (extendMatchPortable_spec P (by rw [h.1]; decide) h.2.1 buf hB _ _ _ _ hc hb),
    extendMatchOptT_inBounds P buf _ _ _ _⟩
 
 theorem ok_fastReject (P : TwinParams) (h : P.Ok) (buf : List Nat) (h2 : 2 ≤ buf.length)
